@@ -43,6 +43,15 @@ func (p *C09) Prepare(env *Env, tier string, seed uint64) error {
 	// flag-value enumeration: every flag of every command with every value of
 	// the list (the input is a small valid one, so the flag decides)
 	p.enumFlags(seed)
+	// every structurally unusual (but valid or nearly valid) YAML document with every write command
+	for _, raw := range yamlShapes {
+		for _, cmd := range [][]string{{"write"}, {"write", "event"}, {"write", "parse"}, {"write", "conv", "-c", "cmt"}} {
+			st := Step{Step: simrt.Step{Argv: append([]string{}, cmd...), Seed: seed + uint64(len(p.cuts)), Stdin: &simrt.Stream{Data: []byte(raw)}}}
+			p.cuts = append(p.cuts, &Case{Property: "C09", Kind: "single", Seed: seed, Run: 1_000_000 + len(p.cuts), Steps: []Step{st},
+				Labels: []string{"fault:F6:yaml-shape", "yaml-shape-enumeration"}})
+			p.nflag++
+		}
+	}
 	// cut-point enumeration: every truncation offset of nSent sentences
 	r := model.NewRand(seed, "C09/cuts")
 	for i := 0; i < nSent; i++ {
